@@ -216,6 +216,7 @@ type stats struct {
 	cases, reached, rejected, calls, minCalls                int64
 	replies, noReply, nontrivial, positive, truncated        int64
 	tcOversize, twins, failing, attributed, minimised        int64
+	firstOfMany                                              int64
 	maxUDP, maxTCP                                           int64
 	rcodes, blocks, kinds, rejectedOpts, perDB, nontrivPerDB map[string]int64
 }
@@ -239,6 +240,7 @@ func (s *stats) merge(o *stats) {
 	s.truncated += o.truncated
 	s.tcOversize += o.tcOversize
 	s.twins += o.twins
+	s.firstOfMany += o.firstOfMany
 	s.failing += o.failing
 	s.attributed += o.attributed
 	s.minimised += o.minimised
@@ -280,7 +282,7 @@ func replayOf(e *env, text string, c qcase) map[string]interface{} {
 	return rp
 }
 
-func runUnit(r *vlib.Run, u unit, text string, twins []int, st *stats) string {
+func runUnit(r *vlib.Run, idx int, u unit, text string, twins []int, st *stats) string {
 	loc := newStats()
 	cl := casesFor(u.n, u.t, r.Thorough())
 	for k, v := range cl.blocks {
@@ -299,9 +301,7 @@ func runUnit(r *vlib.Run, u unit, text string, twins []int, st *stats) string {
 			continue
 		}
 		loc.reached++
-		if obs.twinRan {
-			loc.twins++
-		}
+		loc.twins += int64(obs.twinRan)
 		if obs.replied {
 			loc.replies++
 			loc.rcodes[rcodeName(obs.rcode)]++
@@ -318,6 +318,9 @@ func runUnit(r *vlib.Run, u unit, text string, twins []int, st *stats) string {
 			if obs.tcOversize {
 				loc.tcOversize++
 			}
+			if obs.firstOfMany {
+				loc.firstOfMany++
+			}
 			if c.tcp == 1 && int64(obs.wireLen) > loc.maxTCP {
 				loc.maxTCP = int64(obs.wireLen)
 			}
@@ -327,7 +330,7 @@ func runUnit(r *vlib.Run, u unit, text string, twins []int, st *stats) string {
 		} else if len(fs) == 0 {
 			loc.noReply++
 		}
-		if i == len(cl.list)/2 {
+		if i == (idx*7919)%len(cl.list) {
 			sample = fmt.Sprintf("%s/%s %s -> replied=%v rcode=%s len=%d tc=%v findings=%d", u.e.backend, u.e.db, c, obs.replied, rcodeName(obs.rcode), obs.wireLen, obs.truncated, len(fs))
 		}
 		if len(fs) > 0 {
@@ -414,11 +417,12 @@ func main() {
 	st := newStats()
 	samples := make([]string, len(units))
 	vlib.ParallelFor(len(units), func(i int) {
-		samples[i] = runUnit(r, units[i], texts[units[i].e.db], twins, st)
+		samples[i] = runUnit(r, i, units[i], texts[units[i].e.db], twins, st)
 	})
 	for _, e := range envs {
 		e.h.Close()
 	}
+	clean() // Finish exits the process: deferred calls do not run
 	for i := 0; i < len(samples); i += 97 {
 		r.Sample(samples[i])
 	}
@@ -426,7 +430,7 @@ func main() {
 	r.Set("states", st.cases)
 	r.Set("transitions", st.calls)
 	r.Set("traces_validated_against_impl", st.calls)
-	r.Set("evaluations", st.reached+st.twins)
+	r.Set("evaluations", st.calls+st.twins)
 	r.Set("distinct_nontrivial", st.nontrivial)
 	r.Set("cases_reaching_handler", st.reached)
 	r.Set("cases_rejected_by_miekg_pack_or_unpack", st.rejected)
@@ -437,6 +441,7 @@ func main() {
 	r.Set("replies_with_answer_records", st.positive)
 	r.Set("replies_truncated", st.truncated)
 	r.Set("replies_tc_set_but_still_over_limit", st.tcOversize)
+	r.Set("replies_to_two_question_queries_echoing_only_the_first", st.firstOfMany)
 	r.Set("largest_udp_reply", st.maxUDP)
 	r.Set("largest_tcp_reply", st.maxTCP)
 	r.Set("reply_rcodes", st.rcodes)
@@ -455,14 +460,15 @@ func main() {
 	if r.Thorough() {
 		factoring = "thorough: header group fully crossed with the core; option lists with every (size,DO,transport); pairs (D) on the full core with v0 and v1; twin option both in front of and behind the option list"
 	}
-	r.Set("rule", "structured product. CORE = name x type x EDNS version x database x backend, always a FULL product ("+fmt.Sprint(len(names)*len(types)*len(versions)*len(dbs)*len(dnsfix.Backends))+" cells). Each core cell is crossed with: A = advertised size x DO x transport (full); B = option list x (size,DO,transport); C = header group opcode x qdcount x class x extra-additional-RR x client address; D = every header-group value paired with every size/DO/transport/option value; M = the same message through fbserver's serveMux with qdcount 0/1/2 x transport. Factored (not fully crossed) because they cannot interact in the code: the header group (opcode, second question, class, extra RR; they only flow into SetReply and the class field of synthesised RRs) against the size group and the option lists (which only flow into OPT handling, location lookup and Scrub/Truncate) - covered pairwise by D. "+factoring+". Every message is packed and unpacked by miekg/dns first; messages it refuses never reach a handler and are counted separately. states = distinct (database, backend, query) cases; transitions = calls of the real ServeDNS (cases + metamorphic twins); evaluations = oracle applications (cases reaching the handler + metamorphic comparisons); nontrivial = cases with a reply other than REFUSED. Failing cases are simplified one dimension at a time towards the first value of each dimension until no single simplification keeps the same kind of failure; fingerprints name that local minimum.")
+	r.Set("rule", "structured product. CORE = name x type x EDNS version x database x backend, always a FULL product ("+fmt.Sprint(len(names)*len(types)*len(versions)*len(dbs)*len(dnsfix.Backends))+" cells). Each core cell is crossed with: A = advertised size x DO x transport (full); B = option list x (size,DO,transport); C = header group opcode x qdcount x class x extra-additional-RR x client address; D = every header-group value paired with every size/DO/transport/option value; M = the same message through fbserver's serveMux with qdcount 0/1/2 x transport. Factored (not fully crossed) because they cannot interact in the code: the header group (opcode, second question, class, extra RR; they only flow into SetReply and the class field of synthesised RRs) against the size group and the option lists (which only flow into OPT handling, location lookup and Scrub/Truncate) - covered pairwise by D. "+factoring+". Every message is packed and unpacked by miekg/dns first; messages it refuses never reach a handler and are counted separately. states = distinct (database, backend, query) cases; transitions = calls of the real ServeDNS (cases + metamorphic twins); evaluations = oracle applications (one per call + one per metamorphic comparison); nontrivial = cases with a reply other than REFUSED. Failing cases are simplified one dimension at a time towards the first value of each dimension until no single simplification keeps the same kind of failure; fingerprints name that local minimum.")
 	pprof.StopCPUProfile()
 	r.Assume = []string{
 		"miekg/dns Pack/Unpack define wire validity (the real server uses the same parser); bytes miekg cannot represent (compression pointers in questions, trailing garbage, TSIG) are outside the space",
 		"the package's random source is replaced by a deterministic one that never draws 0 and maxAnswer is 200, so the content of a reply is a function of the query; record order inside a section is not compared",
 		"response cache disabled (C12 covers it); handler configuration otherwise default (AlwaysCompress off)",
 		"a UDP reply larger than the client's limit WITH TC set is reported under its own kind (size/udp-over-limit-despite-tc): 'truncated' is read as 'cut down to the size'; size/udp is the literal reading (over the limit and TC clear)",
-		"question section equality is exact (name bytes, type, class, count)",
+		"question section equality is exact (name bytes, type, class, count), except that a query with two questions may be answered with its first question alone in the question section: the repository's own TestDNSDBMultipleQuestions documents that as the intended baseline (counted in replies_to_two_question_queries_echoing_only_the_first)",
+		"a message with no question (only reachable through the mux, which answers SERVFAIL) is not required to get BADVERS for an unsupported EDNS version",
 	}
 	r.Finish()
 }
@@ -529,6 +535,7 @@ func replay(path string) {
 				}
 			}
 			h.Close()
+			clean()
 			if still {
 				fmt.Println("REPRODUCED")
 				os.Exit(1)
